@@ -45,6 +45,7 @@ type TLCRun struct {
 	NoDump   bool     // don't dump states (trace validation runs)
 	Files    map[string][]byte // extra files to write in the scratch dir (traces)
 	KeepVars []string // if set, only these variables are parsed from each state
+	Collect  string   // glob (relative to the scratch dir) of files to return in TLCStats.Files
 }
 
 type TLCStats struct {
@@ -58,6 +59,7 @@ type TLCStats struct {
 	Dumped    int64
 	// Counterexample states (raw text) if TLC printed an error trace.
 	ErrorTrace []string
+	Files      map[string][]byte
 }
 
 var reStats = regexp.MustCompile(`(\d+) states generated, (\d+) distinct states found`)
@@ -286,6 +288,16 @@ func (r TLCRun) Stream(par int, handle func(State)) (TLCStats, error) {
 		close(readerDone)
 	}
 	werr := cmd.Wait()
+	if r.Collect != "" {
+		stats.Files = map[string][]byte{}
+		if fs, _ := filepath.Glob(filepath.Join(scratch, r.Collect)); len(fs) > 0 {
+			for _, f := range fs {
+				if b, err := os.ReadFile(f); err == nil {
+					stats.Files[filepath.Base(f)] = b
+				}
+			}
+		}
+	}
 	if !r.NoDump {
 		// unblock the reader if TLC never opened the FIFO
 		if w, err := os.OpenFile(fifo, os.O_WRONLY|syscall.O_NONBLOCK, 0); err == nil {
